@@ -15,7 +15,7 @@ ID = 'C09'
 LEVEL = 'exploration'
 TECHNIQUE = 'bounded exhaustive enumeration of small grammars x modes x formats x options, independent decoders of PMCFG/RCG/LoPar files, CLI executed in-process'
 
-WORDS = ['w', 'Haus', 'ärger', 'w', 'Über', 'USA', '3D', 'eMail', '#1', '#']
+WORDS = ['w', 'Haus', 'ärger', 'w', 'Über', 'USA', '3D', 'eMail', '#1', '#', 'caf\u00e9', 'cafe\u0301']
 MODES = [None,
          {'reordering': 'none', 'markov': None},
          {'reordering': 'optimal', 'markov': None},
@@ -267,6 +267,10 @@ def check_write(mtjs, mode_i, fmt, lig, enc):
                               % (detail, [model.mt_str(m.root, m.toks) for m in mts], mode, lig, enc),
                     'what': '%s: %s' % (fmt, kind)})
     try:
+        ''.join(tk['word'] for m in mts for tk in m.toks).encode(enc)
+    except UnicodeEncodeError:
+        return out, False           # the encoding cannot carry these words: not a case
+    try:
         G, lex = build_grammar(mts, mode)
     except Exception as e:
         bad('exception', 'extract/binarize: %s: %s' % (type(e).__name__, e))
@@ -398,6 +402,10 @@ def check_cli(mtjs, gramtype, markov, fmt, lig):
         if fmt == 'rcg' and not lig:
             dest2 = os.path.join(scratch(), 'c09again')
             for denc in ('utf-8', 'latin-1'):
+                try:
+                    ''.join(tk['word'] for m in mts for tk in m.toks).encode(denc)
+                except UnicodeEncodeError:
+                    continue
                 st, so, se, exc = cli.run(['grammar', dest, dest2, 'treebank', '--src-format', 'rcg', '--dest-format', 'pmcfg',
                                            '--dest-enc', denc])
                 if st != 0:
